@@ -81,6 +81,13 @@ def ob_b1(ctx: Ctx):
 ob_b1.wants_all_cores = True
 
 
+def ob_b2(ctx: Ctx):
+    return docs_b.run_tools(ctx, 2000, 12000)
+
+
+ob_b2.wants_all_cores = True
+
+
 def probe_blank_lines():
     """documents with blank lines that carry spaces (widths unrelated to the indent) must canonicalise like the same
     documents without them; trailing spaces and width changes of real indentation must not matter either"""
@@ -185,4 +192,5 @@ def obligations(ctx: Ctx):
         Ob(f"{P}.R3.ident", "R", "bare identifier-class strings re-lex to one IDENTIFIER token (no `vs`/literal token inside)", LX.FUNCS_EMIT + LX.FUNCS_LEX, partial(LX.ob_ident, oid=f"{P}.R3", which="ident")),
         Ob(f"{P}.R3.expr", "R", "bare operator expressions re-lex to IDENTIFIER / Unicode operator tokens only", LX.FUNCS_EMIT + LX.FUNCS_LEX, partial(LX.ob_expr, oid=f"{P}.R3")),
         Ob(f"{P}.B1", "B", "every combination of lenient rewrites converges on the canonical bytes; canonical text is in the strict profile", ["octave_mcp.core.parser:parse_with_warnings", "octave_mcp.core.emitter:emit"], ob_b1, timeout=3000),
+        Ob(f"{P}.B2", "B", "the tools as canonicalisers: octave_validate and octave_write(lenient) on lenient renderings give the canonical bytes", ["octave_mcp.core.parser:parse_with_warnings", "octave_mcp.core.emitter:emit"], ob_b2, timeout=3000),
     ] + LX.parse_layout_obs(P) + LX.emit_layout_obs(P)
